@@ -1,6 +1,9 @@
 import ConduitModel.Driver.Dlq
 import ConduitModel.Driver.Funnel
 import ConduitModel.Driver.Arbiter
+import ConduitModel.Driver.Ctl
+import ConduitModel.Driver.Prov
+import ConduitModel.Driver.Live
 
 /-
 `driver <component>` : reads cases from stdin (one per line), writes one result line per case.
@@ -14,6 +17,9 @@ def component (name : String) : Option (String → String) :=
   | "funnel" => some funnelLine
   | "funnelmon" => some funnelMonLine
   | "arbiter" => some arbiterLine
+  | "crud" => some crudLine
+  | "import" => some importLine
+  | "live" => some liveLine
   | _ => none
 
 partial def loop (h : IO.FS.Stream) (out : IO.FS.Stream) (f : String → String) : IO Unit := do
